@@ -243,6 +243,11 @@ def fluentLine (rs : RibSt) (fl : FlSt) (ts : List Tok) : RibSt × FlSt :=
           else (rs.monfail "c18" s!"a {tokStr kind} request carries {g} on the wire, the builder calls of its chain set {w}", fl)
         | _, _ => (bad rs, fl)
       | _ => (bad rs, fl)
+    else if c = "fl.unsent" then
+      -- a call that has to put a message on the wire did not (the harness waited for it)
+      match args with
+      | [what] => (rs.monfail "c18" s!"{(strOf what).getD ""} put no message on the wire: the client's election id was not updated, what follows is stamped with the old one", fl)
+      | _ => (bad rs, fl)
     else if c = "fl.restart" then
       -- Stop and Start of the same fluent client: the id sequence and the election id most
       -- recently set are the client's, not the session's — nothing changes
